@@ -16,7 +16,7 @@ while os.path.exists(os.path.join(src, f"patch{n}.diff")):
     notes = os.path.join(src, f"notes{n}.md")
     if os.path.exists(notes):
         shutil.copy(notes, os.path.join(d, "notes.md"))
-    meta = {"property": pid, "round": 2, "source": "independent sub-agent given only the property text and a scratch worktree"}
+    meta = {"property": pid, "round": int(sys.argv[4]) if len(sys.argv) > 4 else 2, "source": "independent sub-agent given only the property text and a scratch worktree"}
     json.dump(meta, open(os.path.join(d, "meta.json"), "w"), indent=1)
     print("imported", d)
     n += 1
